@@ -1,4 +1,4 @@
 import LitexModel.Event.Num
 open Litex Litex.Driver Litex.Event
 
-def main : IO Unit := mainLoop openMachine (fun _ => none)
+def main : IO Unit := mainLoop openMachine call
